@@ -61,6 +61,31 @@ def corpus_games():
     out.append((dict(rewards=[0, 0, 0], players=[P1, PR, PR],
                      transition_list=[[("a", 1), ("b", 2)], [(1, 1)], [(1, 2)]], final_states=[0, 1]),
                 dict(fr=[None, [Fr(1)], [Fr(1)]], style="cyclic")))
+    # 'patient' games: legal stopping games whose loops need more than 10 000 sweeps (a self-loop left with probability
+    # 5e-4). The error form of the claims does not apply (K1: guard 'any'); the residual and structural predicates do, and
+    # a loop that gives up early leaves a residual far above the threshold.
+    out.append((dict(rewards=[0, 1, 5, 0, 0], players=[P1, PR, PR, PR, PR],
+                     transition_list=[[("slow", 1), ("fast", 2)], [(0.9995, 1), (0.0004, 3), (0.0001, 4)], [(0.5, 3), (0.5, 4)],
+                                      [(1, 3)], [(1, 4)]], final_states=[3]),
+                dict(fr=[None, [Fr(9995, 10000), Fr(4, 10000), Fr(1, 10000)], [Fr(1, 2), Fr(1, 2)], [Fr(1)], [Fr(1)]],
+                     style="corpus", guard="any", patient=True)))
+    out.append((dict(rewards=[0, 0, 2, 0, 0], players=[P2, PR, PR, PR, PR],
+                     transition_list=[[("wait", 1), ("go", 2)], [(0.9995, 1), (0.0005, 3)], [(0.75, 3), (0.25, 4)],
+                                      [(1, 3)], [(1, 4)]], final_states=[3]),
+                dict(fr=[None, [Fr(9995, 10000), Fr(5, 10000)], [Fr(3, 4), Fr(1, 4)], [Fr(1)], [Fr(1)]],
+                     style="corpus", guard="any", patient=True)))
+    # a game in which 'rewards under minimal reachability' DEcreases late in the iteration (Player 2's reachability strategy stays
+    # on a cycle its reward strategy leaves; a Player-1 state with reach-tied actions whose reward-optimal action flips late):
+    # a stopping test that looks at signed instead of absolute changes stops here before the diagnostic has settled
+    X, FIN, SNK = 11, 13, 14
+    H = Fr(1, 100)
+    rows = [[("go", X)], [(0.9, X), (0.08, FIN), (0.02, SNK)], [(1.0, X)], [(0.9, X), (0.08, 4), (0.02, SNK)], [(1.0, 5)], [(1.0, 6)],
+            [(1.0, 7)], [(1.0, FIN)], [("cheap", 2), ("dear", 1)], [("A", 8), ("B", 3)], [(0.9, 9), (0.09, FIN), (0.01, SNK)],
+            [("stay", 10), ("leave", 12)], [(1.0, FIN)], [(1.0, FIN)], [(1.0, SNK)]]
+    kinds = [P1, PR, PR, PR, PR, PR, PR, PR, P2, P1, PR, P2, PR, PR, PR]
+    out.append((dict(rewards=[0, 5000, 1, 0, 0, 0, 0, 1000, 0, 0, 2, 1, 1, 0, 0], players=kinds, transition_list=rows, final_states=[FIN]),
+                dict(fr=[[Fr(w).limit_denominator(100) for w, _ in row] if kd == PR else None for kd, row in zip(kinds, rows)],
+                     style="corpus", guard="any")))
     # Player 1 with two adjacent dead successors
     g = dict(rewards=[1, 0, 0, 0, 0], players=[P1, PR, PR, PR, PR],
              transition_list=[[("a", 1), ("b", 2), ("c", 3)], [(1, 1)], [(1, 2)], [(1, 3)], [(1, 4)]], final_states=[3])
@@ -289,4 +314,40 @@ def loglevel_check(ctx, recs, fields, count, tag):
             a, b = (d.pruned, r.pruned) if f == "pruned" else (d.out[FIELDS[f]], r.out[FIELDS[f]])
             if a != b:
                 ctx.violation("at log level DEBUG %s comes out as %r, otherwise %r" % (f, a, b), inp)
+                break
+
+
+def resolve_check(ctx, recs, fields, count, tag):
+    """the same description solved again: (a) through ONE StochasticGame object, first in the other mode and then in this
+    one; (b) through a fresh object on the same dictionaries after an earlier solve in the other mode. The second solve must
+    report, bit for bit, what a single solve on a fresh copy reports for the fields of this property."""
+    pool = [r for r in recs if r.op == "solve" and "timeout" not in r.res
+            and all(isinstance(row, list) for row in r.game["transition_list"])]
+    ctx.rng.shuffle(pool)
+    pool = pool[:count]
+    jobs = []
+    for k, r in enumerate(pool):
+        fresh = bool(k % 2)
+        jobs.append(dict(op="solve_seq", game=enc(r.game), steps=[[not r.prune, fresh], [r.prune, fresh]], share=bool(r.meta.get("share"))))
+    res = impl.run_cases(jobs, limit=30, tag=tag + "again")
+    for k, (r, x) in enumerate(zip(pool, res)):
+        ctx.evaluations += 1
+        how = "a fresh object on the same dictionaries" if k % 2 else "the same StochasticGame object"
+        ctx.count("second solve (%s)" % how)
+        steps = x.get("steps") or []
+        if len(steps) != 2 or "timeout" in x or any("timeout" in st for st in steps):
+            continue
+        d = Rec(r.game, r.meta, r.prune, "solve", steps[1])
+        inp = dict(r.inp(), steps=jobs[k]["steps"])
+        if r.ok != d.ok or (not r.ok and (r.res.get("exc"), r.res.get("msg")) != (steps[1].get("exc"), steps[1].get("msg"))):
+            ctx.violation("solved a second time through %s (after a solve in the other mode) the outcome is %s; a single solve gives %s"
+                          % (how, d.describe(), r.describe()), inp)
+            continue
+        if not r.ok:
+            continue
+        for f in fields:
+            a, b = (d.pruned, r.pruned) if f == "pruned" else (d.out[FIELDS[f]], r.out[FIELDS[f]])
+            if a != b:
+                ctx.violation("solved a second time through %s (after a solve in the other mode) %s comes out as %r; a single solve gives %r"
+                              % (how, f, a, b), inp)
                 break
